@@ -98,9 +98,9 @@ pub fn cells(tier: Tier) -> Vec<CellPlan> {
     {
         let mut cfg = Cfg::default();
         cfg.events = true;
-        cfg.tick_offset = u32::MAX - 8;
+        cfg.tick_offset = u32::MAX - 5;
         let c = EvCell {
-            name: "c04-lag2-wrap".into(),
+            name: "c04-lag3-wrap".into(),
             property: "C04",
             cfg,
             connect_at_start: vec![0],
@@ -114,7 +114,7 @@ pub fn cells(tier: Tier) -> Vec<CellPlan> {
             ],
             rounds: if q { 5 } else { 6 },
             tick_choice: false,
-            env: EvEnv { hold_updates: 0, hold_events: false, reorder: false, drop_unreliable: false, hold_client_events: false, hold_mutations: false, hold_acks: false, update_latency: 2, update_batch: 0 },
+            env: EvEnv { hold_updates: 0, hold_events: false, reorder: false, drop_unreliable: false, hold_client_events: false, hold_mutations: false, hold_acks: false, update_latency: 3, update_batch: 0 },
             oracles: EvOracles { c04: true, c05: true, ..Default::default() },
             closure_rounds: 6,
         };
